@@ -88,7 +88,9 @@ def runErrvis (c : Case) : Res :=
   let tags := [if nerr ≥ 1 && nsec > nerr then "nt=C01,C03,C04,C08" else "nt=C01,C03,C04",
                s!"secs={(kv? c.header "secs").getD "?"}", s!"nerr={(kv? c.header "nerr").getD "?"}"]
   if c.lines.any (fun l => l.head? == some "impl" && l[1]? == some "panic") then
-    { verdict := "DIFF", tags := "dk=panic" :: tags,
+    -- no report at all: the rejection does not reach the user (C04), the run ends in a panic (C05),
+    -- and with several securities one of them took the others' tables with it (C08)
+    { verdict := "ORACLE", tags := (if nsec ≥ 2 then "of=C04,C05,C08" else "of=C04,C05") :: tags,
       msg := "an output mode panicked: " ++ String.intercalate " " (((c.lines.find? (fun l => l.head? == some "impl")).getD []).drop 2) }
   else if c.lines.any (fun l => l.head? == some "impl" && l[1]? == some "moderr") then
     { verdict := "ORACLE", tags := "of=C04" :: tags,
